@@ -145,7 +145,8 @@ def build(src: str, name: str, site: dict, where: str) -> tuple[ast.FunctionDef,
         unused = set(site.get("rename", {})) - rn.used - set(site.get("optional_rename", []))
         if unused:
             raise SiteError(where, f"rename keys no longer present in the site: {sorted(unused)}")
-        margs = [a.arg for a in f.args.posonlyargs + f.args.args + f.args.kwonlyargs if a.arg not in ("cls", "self")]
+        margs = [a.arg for a in f.args.posonlyargs + f.args.args + f.args.kwonlyargs
+                 if a.arg not in ("cls", "self") and a.arg not in site.get("ignore_args", [])]
         missing = [a for a in margs if a not in site["params"]]
         if missing:
             raise SiteError(where, f"method parameters without a declared kind: {missing}")
